@@ -292,7 +292,8 @@ Section Wf.
 
   Definition has_placeholder (l : list term) : bool := existsb (fun x => term_eqb x placeholder) l.
 
-  (* [k1 = true]: also exclude class K1 (an image whose own components contain a placeholder) *)
+  (* [k1 = true]: also exclude class K1 (an image one of whose own components BEFORE its index is a
+     placeholder: the parser takes the first placeholder of the written list as the index) *)
   Fixpoint wf_term_gen (k1 : bool) (t : term) : bool :=
     match t with
     | TName _ n => name_ok n
@@ -300,7 +301,7 @@ Section Wf.
     | TNum _ i => i <=? usize_max          (* the payload is a usize *)
     | TSet _ l => nonnil l && forallb (wf_term_gen k1) l && nodup_eqb l
     | TVec _ l => nonnil l && forallb (wf_term_gen k1) l
-    | TImg _ i l => (i <=? nlen l) && forallb (wf_term_gen k1) l && (negb k1 || negb (has_placeholder l))
+    | TImg _ i l => (i <=? nlen l) && forallb (wf_term_gen k1) l && (negb k1 || negb (has_placeholder (take (N.to_nat i) l)))
     | TBox1 _ a => wf_term_gen k1 a
     | TBox2 _ a b => wf_term_gen k1 a && wf_term_gen k1 b
     end.
